@@ -871,12 +871,36 @@ func getAllSegmentsInAggs(queryInfo *QueryInformation, qsrs []*QuerySegmentReque
 		}
 	}
 
+	finalQsrs = removeAlreadyRotatedQsrs(finalQsrs, rotatedQSR)
 	finalQsrs = append(finalQsrs, rotatedQSR...)
 	numRawSearch += rotatedRawCount
 
 	numDistributed = queryInfo.dqs.GetNumNodesDistributedTo()
 
 	return finalQsrs, numRawSearch, numDistributed, nil
+}
+
+// A segment that got rotated after the unrotated segments were listed and before the
+// rotated segments were listed shows up in both lists; drop it from the unrotated list so
+// that it is searched only once.
+func removeAlreadyRotatedQsrs(unrotatedQSR []*QuerySegmentRequest, rotatedQSR []*QuerySegmentRequest) []*QuerySegmentRequest {
+	if len(unrotatedQSR) == 0 || len(rotatedQSR) == 0 {
+		return unrotatedQSR
+	}
+
+	rotatedSegKeys := make(map[string]struct{}, len(rotatedQSR))
+	for _, qsr := range rotatedQSR {
+		rotatedSegKeys[qsr.segKey] = struct{}{}
+	}
+
+	retVal := make([]*QuerySegmentRequest, 0, len(unrotatedQSR))
+	for _, qsr := range unrotatedQSR {
+		if _, ok := rotatedSegKeys[qsr.segKey]; !ok {
+			retVal = append(retVal, qsr)
+		}
+	}
+
+	return retVal
 }
 
 func getAllUnrotatedSegmentsInAggs(queryInfo *QueryInformation, aggs *structs.QueryAggregators, timeRange *dtu.TimeRange, indexNames []string,
@@ -1087,6 +1111,7 @@ func getAllSegmentsInQuery(queryInfo *QueryInformation, sTime time.Time) ([]*Que
 		}
 	}
 
+	unsortedQsrs = removeAlreadyRotatedQsrs(unsortedQsrs, rotatedQSR)
 	unsortedQsrs = append(unsortedQsrs, rotatedQSR...)
 	numRawSearch += rotatedRawCount
 	numPQS += rotatedPQS
